@@ -227,6 +227,10 @@ func checkC03(P *Prog, r *Result) {
 	// "absent optional inputs leave their destination untouched": default > required > optional, and the catch value is
 	// for failures only - an absent optional node with a Catch is skipped, not caught (C04's decision rule)
 	shareRule(P, r, checkC04, "C04/decision-shape", nil, "C03/absent-optional-untouched", 5)
+	// "slice length and element order equal the input's": a request whose body could not be decoded is not a record with
+	// the undecodable pairs left out - `ParseForm` skips them, so accepting its partial result (`err != nil && len(r.Form)
+	// == 0`) turns tags=red&tags=50%off&tags=blue into [red blue] with no issue (C15's rule on the front ends)
+	shareRule(P, r, checkC15, "C15/decode-failure", func(o Obligation) bool { return strings.Contains(o.Construct, "/zhttp.") || strings.Contains(o.Construct, "/zjson.") }, "C03/undecodable-source-is-not-a-partial-record", 2)
 }
 
 // closureEffect: does option closure cl act on its argument?
@@ -674,6 +678,38 @@ func (P *Prog) checkIndexAgreement(r *Result) {
 							sprintfOK = true
 						}
 					}
+				}
+			}
+			// every iteration runs the child schema: no way round the dispatch from the loop's head back to it (a
+			// `continue` for null items leaves their slot at the zero value, with no `required` issue and no Default)
+			if db := disp.Block(); db != nil && loop.body[db] {
+				seen := map[*ssa.BasicBlock]bool{}
+				var work []*ssa.BasicBlock
+				for _, sc := range loop.header.Succs {
+					if loop.body[sc] && sc != db {
+						work = append(work, sc)
+					}
+				}
+				skips := false
+				for len(work) > 0 && !skips {
+					b := work[len(work)-1]
+					work = work[:len(work)-1]
+					if seen[b] {
+						continue
+					}
+					seen[b] = true
+					for _, sc := range b.Succs {
+						switch {
+						case sc == loop.header:
+							skips = true
+						case sc == db || !loop.body[sc]:
+						default:
+							work = append(work, sc)
+						}
+					}
+				}
+				if skips && loop.header != db {
+					problems = append(problems, "some iteration of the element loop goes round the child schema (a `continue` before the dispatch): that element is neither tested nor defaulted nor reported as required")
 				}
 			}
 			wantIdx := 2
